@@ -222,12 +222,12 @@ pub fn run(env: &Env) -> i32 {
     let cfg = program::GenCfg { undecided: false, plant: 130, ..Default::default() };
     if focus != 0 {
         let cfg_f = program::GenCfg { undecided: false, plant: 60, focus, max_members: 12, max_items: 5, max_stmts: 4, ..Default::default() };
-        tape_stream(env, &mut st, "programs-focused", env.tier.n(8000, 250_000), 1600, |tape, s| program_case(&prop, tape, &cfg_f, s));
+        tape_stream(env, &mut st, "programs-focused", env.tier.n(16_000, 250_000), 1600, |tape, s| program_case(&prop, tape, &cfg_f, s));
     }
-    tape_stream(env, &mut st, "programs", env.tier.n(6000, 200_000), 1400, |tape, s| program_case(&prop, tape, &cfg, s));
+    tape_stream(env, &mut st, "programs", env.tier.n(16_000, 200_000), 1400, |tape, s| program_case(&prop, tape, &cfg, s));
     // a stream that does contain undecided forms: only `may` is relaxed, everything else still checked
     let cfg_u = program::GenCfg { undecided: true, plant: 110, max_depth: 8, ..Default::default() };
-    tape_stream(env, &mut st, "programs-with-undecided-forms", env.tier.n(2500, 80_000), 1400, |tape, s| program_case(&prop, tape, &cfg_u, s));
+    tape_stream(env, &mut st, "programs-with-undecided-forms", env.tier.n(6000, 80_000), 1400, |tape, s| program_case(&prop, tape, &cfg_u, s));
 
     let mut floors = Vec::new();
     for n in names {
